@@ -50,6 +50,9 @@ pub struct GraphSpec {
     /// earlier node); 2 the first n-1 edges form the chain 0-1-2-…; later edges are random
     #[serde(default)]
     pub shape: u8,
+    /// true: the "parallel to the previous edge" kinds are disabled (parallel edges then only arise by chance)
+    #[serde(default)]
+    pub nopar: bool,
     pub edges: Vec<ESpec>,
     pub muts: Vec<Mutn>,
 }
@@ -258,7 +261,8 @@ pub fn build(g: &GraphSpec, ctx: &mut CaseCtx) -> Result<(GraphEngine, Model), F
     let mut prev: Option<(u64, u64)> = None;
     for (k, s) in g.edges.iter().enumerate() {
         let backbone = g.shape % 3 != 0 && k + 1 < n;
-        let (from, to) = match (s.kind % 32, prev) {
+        let kind = if g.nopar && (1..=3).contains(&(s.kind % 32)) { 31 } else { s.kind % 32 };
+        let (from, to) = match (kind, prev) {
             _ if backbone => {
                 let other = if g.shape % 3 == 1 { pick(s.a, k + 1) } else { k };
                 // orientation of the backbone edge from the low bit of b
@@ -405,11 +409,11 @@ pub fn graph_strategy(_t: Tier) -> impl Strategy<Value = GraphSpec> {
             prop_oneof![4 => Just(0u8), 2 => Just(1u8), 2 => Just(2u8), 2 => Just(3u8)],
             0u8..13,
             prop_oneof![3 => Just(0u8), 2 => Just(1u8), 1 => Just(2u8)],
-            Just(shape),
+            (Just(shape), prop_oneof![3 => Just(false), 2 => Just(true)]),
             prop::collection::vec(espec(), min_m..=max_m),
             muts,
         )
-            .prop_map(|(n, nflags, wmode, weq, alldir, shape, edges, muts)| GraphSpec { n, nflags, wmode, weq, alldir, shape, edges, muts })
+            .prop_map(|(n, nflags, wmode, weq, alldir, (shape, nopar), edges, muts)| GraphSpec { n, nflags, wmode, weq, alldir, shape, nopar, edges, muts })
     })
 }
 
@@ -445,4 +449,28 @@ pub fn path_case_strategy(t: Tier) -> impl Strategy<Value = PathCase> {
 pub fn algo_case_strategy(t: Tier) -> impl Strategy<Value = AlgoCase> {
     (graph_strategy(t), prop_oneof![3 => Just(0u8), 1 => 1u8..3], 0u8..3, any::<bool>(), any::<u16>())
         .prop_map(|(g, ty, defw, forest, probe)| AlgoCase { g, ty, defw, forest, probe })
+}
+
+/// Profile for the `astar` part: all-directed graphs on a forward-oriented backbone with many extra edges and
+/// no deliberately parallel edges, so that most A* queries fall in the class where none of the recorded A*
+/// defects applies, the target is reachable over several hops and alternative routes exist.
+pub fn astar_case_strategy(_t: Tier) -> impl Strategy<Value = PathCase> {
+    (5u8..=20, 1u8..=2).prop_flat_map(|(n, shape)| {
+        let nn = n as usize;
+        let q = (any::<u16>(), any::<u16>(), 0u8..2, prop_oneof![5 => Just(0u8), 1 => 1u8..3], prop_oneof![6 => Just(true), 1 => Just(false)], 0u8..3, prop_oneof![1 => Just(0u8), 2 => Just(1u8), 2 => Just(2u8), 1 => Just(3u8)], any::<u16>())
+            .prop_map(|(s, t, dir, ty, weighted, defw, heur, hseed)| Q::AStar { s, t, dir, ty, weighted, defw, heur, hseed });
+        (
+            prop::collection::vec(0u8..3, nn),
+            prop_oneof![4 => Just(0u8), 1 => Just(1u8), 2 => Just(2u8), 1 => Just(3u8)],
+            0u8..13,
+            prop::collection::vec(espec(), (nn - 1 + nn / 2)..=(nn - 1 + nn + nn / 2)),
+            prop::collection::vec(q, 6..=14),
+        )
+            .prop_map(move |(nflags, wmode, weq, mut edges, qs)| {
+                for e in edges.iter_mut().take(nn - 1) {
+                    e.b &= !1; // backbone edges point from the earlier to the later node
+                }
+                PathCase { g: GraphSpec { n, nflags, wmode, weq, alldir: 1, shape, nopar: true, edges, muts: Vec::new() }, qs }
+            })
+    })
 }
